@@ -1,5 +1,6 @@
 """C09 -- errors reach the nearest try; deferred calls run once, LIFO, on every exit (spec/AnkoSem.tla)."""
-import vlib, corecheck, progs
+import os
+import vlib, corecheck, progs, frames
 
 LEVEL = "model_checking"
 RULE = ("Functions and top level with 0..3 defers and a terminator (normal end, return, throw, undefined name, bad index) at every position, called under "
@@ -10,12 +11,16 @@ RULE = ("Functions and top level with 0..3 defers and a terminator (normal end, 
 
 def run(ctx):
     binp = vlib.build_harness(ctx, "vmharness")
+    trace = os.path.join(ctx.work, "hook_trace.ndjson")
     ctx.assumptions += ["which deferred call's error wins when several fail, finally after a failing catch and finally on a control transfer are left open by the statement",
                         "runtime error messages are compared by class only; messages of thrown values are compared exactly"]
     fams = [("c09-templates", progs.fam_c09()), ("c09-nest", progs.fam_c08(2, wraps=[progs.w_try, progs.w_catch, progs.w_func, progs.w_func_arg, progs.w_forin, progs.w_if_then])),
             ("c09-rand", progs.rand_programs(ctx.seed + 13, 500 if ctx.quick() else 8000, maxdepth=4 if ctx.quick() else 5))]
     for tag, fam in fams:
-        corecheck.run_family(ctx, binp, fam, tag)
+        corecheck.run_family(ctx, binp, fam, tag, env={"VERIF_TRACE": trace})
+    # code -> spec: the hook traces of all those runs, and of the repository's own vm tests, against the frame machine
+    rt, _ = frames.repo_test_trace(ctx)
+    frames.check(ctx, "C09", [("families", trace), ("repo-vm-tests", rt)], 60000 if ctx.quick() else 600000)
     return vlib.finish(ctx, RULE, exhaustive=True)
 
 
